@@ -116,9 +116,14 @@ func runC06(r *Result, d *drv.Driver, tier string, seed int64, replay string) {
 	}
 	r.Rule = "sequences of 1..6 valid messages (requests and responses mixed, small and large) written back to back; the concatenation is decoded by successive Decode calls on ONE Decoder, followed by one more call that must report io.EOF: " +
 		"exhaustively for every two-way split offset, and one byte at a time, in random chunks with zero-length reads, and with the last data returned together with EOF (random chunk sizes, and every read request satisfied in full); every fifth stream ends with a message whose last item is an unpadded 24..64-byte string, another fifth with a message carrying a vendor extension (an item only a skip field claims) of 5..300 bytes; through a buffered source (plain io.Reader) and an unbuffered one (io.ByteScanner, where the exact bytes consumed per message are compared). " +
-		"The transport model of Io.lean (ReadFull loop, LimitReader over chunked sources, about which the chunk-independence theorems are stated) is itself compared with Go's io.ReadFull / io.LimitReader on random chunkings; the full reader-stack model of IoStack.lean (bufio.Reader of several sizes over io.LimitReader over bufio … pushed and popped like nested decoders; ReadFull, ReadByte, CopyN into Discard, bare Read, read-to-the-end; runs of up to 102 empty reads) is compared with Go's bufio / io step by step. Compared with the model's stream decoder and with the values originally encoded. distinct = distinct (sequence, delivery); non-trivial = more than one message"
+		"The transport model of Io.lean (ReadFull loop, LimitReader over chunked sources, about which the chunk-independence theorems are stated) is itself compared with Go's io.ReadFull / io.LimitReader on random chunkings; the full reader-stack model of IoStack.lean (bufio.Reader of several sizes over io.LimitReader over bufio … pushed and popped like nested decoders; ReadFull, ReadByte, CopyN into Discard, bare Read, read-to-the-end; runs of up to 102 empty reads) is compared with Go's bufio / io step by step; the decoder over that stack (DecodeStack.lean, the subject of C06_decode_over_any_chunking) is compared with the real Decode on valid and mutated messages cut into random chunks (value, outcome class, bytes fetched from the transport incl. read-ahead). Compared with the model's stream decoder and with the values originally encoded. distinct = distinct (sequence, delivery); non-trivial = more than one message"
 	ioCorrespondence(r, d, seed, nSeq*50)
 	ioStackCorrespondence(r, d, seed, nSeq*50)
+	{
+		gd := gen.New(seed + 6161)
+		gd.WF = true
+		decStackCorrespondence(r, d, gd, buildDecInputs(gd, nSeq, 3, mut.Kinds))
+	}
 	types := gen.StructTypes()
 	g := gen.New(seed)
 	g.WF = true
